@@ -2,9 +2,13 @@ package harness
 
 import (
 	"fmt"
+	"os"
 	"regexp"
+	"sort"
 	"strings"
 	"time"
+
+	"github.com/mimecast/dtail/internal/omode"
 
 	"github.com/mimecast/dtail/internal/lcontext"
 	"github.com/mimecast/dtail/verif/vrt"
@@ -137,6 +141,61 @@ func firstDiff(a, b []string) string {
 	return "none"
 }
 
+// c12Mapr: the filter a dmap client derives from the query's table (and sends
+// like any other regex) must select exactly the lines of that table.
+func c12Mapr(c *Ctx) {
+	mk := func(level, table, kv string) string {
+		return level + "|20211002-071209|1|f.go:1|8|10|0|0.1|1h|MAPREDUCE:" + table + "|" + kv
+	}
+	lines := []string{
+		mk("INFO", "T", "k=a|v=1"), mk("INFO", "T", "k=a|v=2"), mk("INFO", "U", "k=a|v=100"), mk("INFO", "TT", "k=a|v=1000"),
+		"INFO|20211002-071209|not a mapreduce line mentioning MAPREDUCE:T without the delimiters", mk("INFO", "T", "k=b|v=4"), "k=a|v=7",
+		mk("INFO", "t", "k=a|v=50000"),
+	}
+	path := WriteScratch("c12/mapr.log", strings.Join(lines, "\n")+"\n")
+	type mc struct {
+		query string
+		want  string
+	}
+	cases := []mc{
+		{"select k,count(k),sum(v) from T group by k order by k", "a,2,3.000000\nb,1,4.000000\n"},
+		{"select k,count(k),sum(v) from U group by k", "a,1,100.000000\n"},
+		{"select k,count(k),sum(v) from TT group by k", "a,1,1000.000000\n"},
+		{"select k,count(k),sum(v) from t group by k", "a,2,3.000000\nb,1,4.000000\n"}, // table names are case-insensitive (upper-cased)
+		{"select count($line) group by $hostname", "8\n"},
+		{"select k,sum(v) where v > 1 logformat generickv", "a,51109.000000\nb,4.000000\n"}, // generickv reads the k=v pairs of every line
+	}
+	for i, m := range cases {
+		outfile := fmt.Sprintf("%s/c12-mapr-%d-%d.csv", Scratch(), c.Shard, i)
+		var got ClientResult
+		res := vrt.Run(vrt.Config{MaxSteps: 5000000, Horizon: 10 * time.Minute}, func() {
+			os.Remove(outfile)
+			args := DefaultArgs()
+			args.Mode = omode.MapClient
+			args.NoColor = true
+			args.Quiet = true
+			args.LogLevel = "error"
+			args.What = path
+			args.QueryStr = m.query + " outfile " + outfile
+			got = RunClientBody(ClientOpts{Kind: "map", Args: args})
+		})
+		c.Count("mapr|" + m.query)
+		b, _ := os.ReadFile(outfile)
+		body := string(b)
+		if i := strings.Index(body, "\n"); i >= 0 {
+			body = body[i+1:] // drop the header line
+		}
+		rows := strings.Split(strings.TrimSuffix(body, "\n"), "\n")
+		sort.Strings(rows)
+		wantRows := strings.Split(strings.TrimSuffix(m.want, "\n"), "\n")
+		sort.Strings(wantRows)
+		if res.Fail != nil || got.Err != "" || got.Status != 0 || strings.Join(rows, "\n") != strings.Join(wantRows, "\n") {
+			c.Violation("mapreduce-filter-differs-from-query", fmt.Sprintf("dmap query %q over a log with tables T, U, TT and other lines: result rows %q, want %q (status %d, %v %v)",
+				m.query, rows, wantRows, got.Status, got.Err, res.Fail), map[string]string{"query": m.query})
+		}
+	}
+}
+
 func c12Cases(thorough bool) (out []c12Case) {
 	toks := []string{"a", " ", ":", ";", ",", "%", "=", "|", "é", "€", "¬", "\\|", ".", ".*", "^", "$", "\"", "`", "base64%", "regex:", "\t", "b"}
 	n := 2
@@ -181,10 +240,13 @@ func init() {
 		Rule: "regexes = all sequences of <=2 (quick) / <=3 (thorough) tokens over 22 tokens (space, ':', ';', ',', '%', '=', '|', non-ASCII incl. bytes 0xAC, anchors, quotes, 'base64%', 'regex:', tab) that compile, " +
 			"x invert x 4 option sets, plus 5 regexes x invert x {0,1,7,-1}^3 before/after/max x plain x quiet; each case runs the real GrepClient -> serverless connector -> ServerHandler -> reader end to end " +
 			"under the controlled scheduler on a ~200-line probe file (all <=2-token lines over the ASCII part of the alphabet); oracle: lines output == lines selected by regexp.MustCompile(pattern) applied directly " +
-			"(with invert and the grep-context reference of C03; negative option values mean 'not set'); non-trivial = the pattern selects some but not all probe lines",
+			"(with invert and the grep-context reference of C03; negative option values mean 'not set'); plus 6 dmap sessions whose line filter is derived from the query's table (tables T, U, TT, lower-case spelling, no table, generickv) over a log mixing tables and foreign lines; non-trivial = the pattern selects some but not all probe lines",
 		Assumptions: []string{"canonical schedule; single file per session (so C02's findings cannot leak in); probe lines avoid byte 0xAC and a leading '.' (C01's findings)"},
 		Run: func(c *Ctx) {
 			probe := c12Probe()
+			if c.Shard == 0 {
+				c12Mapr(c)
+			}
 			for _, cs := range c12Cases(c.Thorough()) {
 				if !c.Mine() {
 					continue
